@@ -625,6 +625,10 @@ V("c13-deg2rad-inverted", "C13", "violation", "C13.R9", edits=[(PCN, "DEG2RAD = 
 V("c13-n-mu-other-edition", "C13", "pass", edits=[("physics/bodies/earth.py", "    mu = 398600.4415", "    mu = 398600.4418")])
 V("c13-n-twopi-literal", "C13", "pass", edits=[(PCN, "TWOPI = 2.0 * pi", "TWOPI = pi + pi")])
 
+# ------------------------------------------------------------------------------------ C03.R4
+V("c03-revert-F18-ragged-event-lists", "C03", "violation", "C03.R4", revert="a8f827e")
+V("c03-bulk-restart-from-first-event", "C03", "violation", "C03.R4", edits=[("dynamics/celestial.py", "                    current_state=stop_state.reshape(state_shape),", "                    current_state=solution.y_events[0][-1].reshape(state_shape),")])
+
 # ------------------------------------------------------------------------------------ memo soundness / cache coherence
 RED = "physics/transforms/reductions.py"
 _RED_OLD = "        if not eops:\n            eops = getEarthOrientationParameters(utc_date.date())\n\n        polar_motion = PolarMotion(eops.x_p, eops.y_p)\n        prec_nut = PrecessionNutation(\n            utc_date,"
